@@ -25,20 +25,16 @@ func reducedFaults(entry, shape string) (fs []Fault) {
 	for k := 1; k <= b.NatN; k++ {
 		fs = append(fs, Fault{"nat", k})
 	}
+	// limits: one per distinct outcome; the execution is deterministic, so every limit above the first one under which the
+	// call completes gives that same complete execution
 	seen := map[string]bool{}
 	for l := 0; l <= maxLimit; l++ {
-		c := Call{Entry: entry, Shape: shape, Faults: []Fault{{"limit", l}}}
-		key := "?"
-		if v, ok := freshTab.Load(c.String()); ok {
-			o := v.(*outcome)
-			key = fmt.Sprint(o.Err, len(o.Log))
-			if o.Err == "" {
-				key = "complete"
-			}
-		} else {
-			key = fmt.Sprint("unknown", l)
+		o := freshOutcome(Call{Entry: entry, Shape: shape, Faults: []Fault{{"limit", l}}}, true)
+		if o.Err != "overflow" {
+			fs = append(fs, Fault{"limit", l})
+			break
 		}
-		if !seen[key] {
+		if key := fmt.Sprint(len(o.Log)); !seen[key] {
 			seen[key] = true
 			fs = append(fs, Fault{"limit", l})
 		}
@@ -46,7 +42,7 @@ func reducedFaults(entry, shape string) (fs []Fault) {
 	return
 }
 
-var sentinelShapes = []string{"generator", "async", "forofnested", "tryfinally", "nestedrun", "yieldstar", "deep", "withrefs", "classes", "sortnested", "S_async", "S_iter"}
+var sentinelShapes = []string{"generator", "async", "forofnested", "nestedrun", "withrefs", "S_async"}
 
 // historyAlphabet: the transitions applied to every state of the history search.
 func historyAlphabet(thorough bool) (al []Call) {
@@ -136,11 +132,18 @@ func histories(r *core.Run) bool {
 				j := jobs[ji]
 				n := frontier[j.node]
 				var w *world
+				completedUnder := ""
+				implied := int64(0)
 				for ti := j.lo; ti < j.hi; ti++ {
 					if expired(r) {
 						return
 					}
 					t := al[ti]
+					if len(t.Faults) == 1 && t.Faults[0].Kind == "limit" && t.Faults[0].K != maxLimit && completedUnder == callKey(t.Entry, t.Shape) {
+						// this (entry, shape) completed under a smaller limit from this very state: a larger one cannot fire
+						implied++
+						continue
+					}
 					// first transition of a chunk: brand-new runtime; the others: reset route on the same runtime
 					var fails []failure
 					w, fails = restore(w, n.path, ti == j.lo)
@@ -153,6 +156,9 @@ func histories(r *core.Run) bool {
 							r.NontrivialN(1)
 						}
 						r.Outcome("h|" + faultClass(t) + "|" + o.Err)
+						if len(t.Faults) == 1 && t.Faults[0].Kind == "limit" && o.Err != "overflow" {
+							completedUnder = callKey(t.Entry, t.Shape)
+						}
 					}
 					if len(fails) > 0 {
 						reportHistory(r, hist, dedupe(fails))
@@ -164,8 +170,9 @@ func histories(r *core.Run) bool {
 					}
 				}
 				mu.Lock()
-				trans += int64(j.hi - j.lo)
+				trans += int64(j.hi-j.lo) - implied
 				mu.Unlock()
+				r.Add("limits_implied_by_monotonicity", implied)
 			}
 		})
 		nTrans += trans
